@@ -398,7 +398,7 @@ def newick_text_checks(chk, fails, written):
         t = LoadTree(treestring='((a,b),(c,d));')
         t.getNodeMatchingName('a').Name = nm
         s = t.getNewick()
-        written_name = s[2:s.index(',b)')]
+        written_name = s[2:s.rindex(',b),(c,d));')]    # the name itself may contain ',b)'
         o = drv.ask('nwkname|' + cps(nm))
         model_name = ''.join(chr(int(x)) for x in o[2:].split(',') if x)
         if written_name != model_name:
